@@ -13,7 +13,7 @@ func init() {
 	register(&propDef{
 		ID: "C06",
 		Meta: propMeta{
-			Explanation: "Decides on every path: (R06a) the only functions that call through the Signer.Sign registry field are the server's /sign handler and the standalone sign command, and Signer.Sign functions are not invoked directly from elsewhere; (R06b) in the /sign handler, from the success edge of mod.Sign no use of the ResponseWriter (other than Header()) and no nil-error return is reachable without crossing PublishAudit(...)==nil, PublishAudit is called exactly once outside any loop, and its argument is the audit.Info created by this request's signinit.Init; (R06c) the same for the standalone command with the nil return as sink; (R06d) PublishAudit cannot return nil when a configured sink was skipped or failed, and every error in Info.AppendTo / Info.Publish is propagated; (R06e) AppendTo opens with O_APPEND, performs exactly one write outside any loop, of a buffer that ends in the newline appended before the write; (R06f) the record is built from this request's objects: audit.New receives the key config's name, the signer's name and the digest; the certificate recorded is InitKey's, and each kind (X.509, PGP) is recorded on every success path that did not find the key to have none; SignOpts carries that Info and that digest; the handler stores client.ip / client.filename and calls UserInfo.AuditContext before publishing, and every UserInfo implementation records a client.* attribute. (R06h) the digest recorded is the digest used: the rules of C01 R01a (every signer reads SignOpts.Hash; no crypto.Hash constant is passed, returned, stored or merged into a variable on a signing path outside the reasoned table; Init stores the requested digest into SignOpts and the record). (R06g) no value that reaches a function result is the memory of an object that went back into a sync.Pool (shared with C14 R14e): the serialised audit record cannot be overwritten by a concurrent request before it is delivered.",
+			Explanation: "Decides on every path: (R06a) the only functions that call through the Signer.Sign registry field are the server's /sign handler and the standalone sign command, and Signer.Sign functions are not invoked directly from elsewhere; (R06b) in the /sign handler, from the success edge of mod.Sign no use of the ResponseWriter (other than Header()) and no nil-error return is reachable without crossing PublishAudit(...)==nil, PublishAudit is called exactly once outside any loop, and its argument is the audit.Info created by this request's signinit.Init; (R06c) the same for the standalone command with the nil return as sink; (R06d) PublishAudit cannot return nil when a configured sink was skipped or failed, and every error in Info.AppendTo / Info.Publish is propagated; (R06e) AppendTo opens with O_APPEND, performs exactly one write outside any loop, of a buffer that ends in the newline appended before the write; (R06f) the record is built from this request's objects: audit.New receives the key config's name, the signer's name and the digest; the certificate recorded is InitKey's, and each kind (X.509, PGP) is recorded on every success path that did not find the key to have none; SignOpts carries that Info and that digest; the handler stores client.ip / client.filename and calls UserInfo.AuditContext before publishing, and every UserInfo implementation records a client.* attribute. (R06h) the digest recorded is the digest used: the rules of C01 R01a (every signer reads SignOpts.Hash; no crypto.Hash constant is passed, returned, stored or merged into a variable on a signing path outside the reasoned table; Init stores the requested digest into SignOpts and the record). (R06g) no value that reaches a function result is the memory of an object that went back into a sync.Pool (shared with C14 R14e): the serialised audit record cannot be overwritten by a concurrent request before it is delivered. (R06i) every OpenPGP packet.Config the module builds has its DefaultHash stored in a block dominating every use, so the digest the audit record names is the digest signed with.",
 			NotDecided:  "atomicity of O_APPEND writes in the kernel, broker behaviour, and that the attribute values equal what the signer actually used beyond being derived from the same objects.",
 			Assumptions: []string{"a single write(2) on an O_APPEND descriptor is not interleaved with other appenders (POSIX, for sizes the kernel writes atomically)"},
 		},
@@ -118,6 +118,7 @@ func (p *Prog) registeredSignerFuncs(field string) map[*ssa.Function]string {
 }
 
 func runC06(c *Ctx) {
+	defer round7C06(c)
 	p := c.P
 	const (
 		ra = "R06a"
